@@ -88,18 +88,18 @@ Section ExecSites.
   Qed.
 
   (* one universal effect applied for one object, WITHOUT any type test *)
-  Definition univ_effect_step (ga : gaction) (prev : state) (o : string * string) (cur2 : state) (ue : muniveff)
+  Definition univ_effect_step (ga : gaction) (os : objects) (prev : state) (o : string * string) (cur2 : state) (ue : muniveff)
     : result state :=
     let pm := dset (ga_pm ga) (ue_var ue) (fst o) in
     let ce := ue_ce ue in
     do g <- ground_group dom pm (Some (ce_ante ce)) (ce_disc ce) (ce_num ce);
-    do h <- antecedents_hold dom eps g prev;
+    do h <- antecedents_hold dom eps (Some os) g prev;
     if h then apply_group_m prev cur2 g else Ok cur2.
 
   Lemma forall_effect_range_lemma ga (os : objects) uorder prev cur :
     apply_universal dom eps ga (Some os) uorder prev cur =
     foldM (fun cur1 o =>
-             foldM (univ_effect_step ga prev o)
+             foldM (univ_effect_step ga os prev o)
                    (filter (fun ue => in_range (ue_ty ue) o) (reorder (ma_univ (ga_action ga)) uorder)) cur1)
           os cur.
   Proof.
@@ -144,12 +144,31 @@ Proof.
   - split; [discriminate|]. intros [sg' [tys' [Hs _]]]. discriminate.
 Qed.
 
-(* unary fluent (the shape the check exercises): accepted iff the argument's type is a subtype of the parameter's *)
-Lemma problem_fluent_unary_lemma dom objs f v r a t :
-  dget (d_funcs dom) f = Some [(v, r)] -> type_of_name dom objs a = Ok t ->
-  (problem_fluent dom objs f [a] = Ok tt <-> is_sub_type (d_types dom) t r = true).
+Lemma problem_fluent_lemma dom objs f args :
+  problem_fluent dom objs f args = Ok tt <->
+  exists sg tys, dget (d_funcs dom) f = Some sg /\ List.length args = List.length sg /\
+                 mapM (type_of_name dom objs) args = Ok tys /\
+                 forall t r, In (t, r) (combine tys (dvalues sg)) -> is_sub_type (d_types dom) t r = true.
 Proof.
-  intros Hf Ht. unfold problem_fluent. rewrite Hf. cbn [List.length Nat.eqb negb mapM]. rewrite Ht. cbn [bind].
+  unfold problem_fluent. destruct (dget (d_funcs dom) f) as [sg|].
+  - destruct (Nat.eqb (List.length args) (List.length sg)) eqn:El; cbn [negb].
+    + apply Nat.eqb_eq in El. destruct (mapM (type_of_name dom objs) args) as [tys|k]; cbn [bind].
+      * destruct (all_subtypes dom tys (dvalues sg)) eqn:Ea.
+        -- split; [intros _|reflexivity]. exists sg, tys. repeat split; try assumption; try reflexivity.
+           apply all_subtypes_iff, Ea.
+        -- split; [discriminate|]. intros [sg' [tys' [Hs [_ [Hm Hall]]]]]. injection Hs as <-. injection Hm as <-.
+           apply all_subtypes_iff in Hall. rewrite Hall in Ea. discriminate.
+      * split; [discriminate|]. intros [sg' [tys' [_ [_ [Hm _]]]]]. discriminate.
+    + apply Nat.eqb_neq in El. split; [discriminate|]. intros [sg' [tys' [Hs [Hl _]]]]. injection Hs as <-. contradiction.
+  - split; [discriminate|]. intros [sg' [tys' [Hs _]]]. discriminate.
+Qed.
+
+(* trajectory fluent, unary (the shape the check exercises): accepted iff the argument's type is a subtype *)
+Lemma trajectory_fluent_unary_lemma dom objs f v r a t :
+  dget (d_funcs dom) f = Some [(v, r)] -> type_of_name dom objs a = Ok t ->
+  (trajectory_fluent dom objs f [a] = Ok tt <-> is_sub_type (d_types dom) t r = true).
+Proof.
+  intros Hf Ht. unfold trajectory_fluent. rewrite Hf. cbn [List.length Nat.eqb negb mapM]. rewrite Ht. cbn [bind].
   cbn [combine fold_left dset dvalues map snd]. unfold all_subtypes. cbn [combine forallb fst snd].
   rewrite andb_true_r. destruct (is_sub_type (d_types dom) t r); split; intros H; try reflexivity; discriminate.
 Qed.
